@@ -100,3 +100,33 @@ Section Derived.
     intros [H0 Hn] E. apply X in E. rewrite N.mod_small in E by exact Hn. lia.
   Qed.
 End Derived.
+
+(* ---- the hypothesis bundle is satisfiable: Z/2Z (carrier bool) is a faithful model of
+   [group_laws] and [order_exact].  Used by the [Example]s of Props/C03.v and Props/C04.v to show
+   that the premises of the theorems are not vacuous; it says nothing about the real curves. ---- *)
+Definition Z2_group : group_ops :=
+  mk_group_ops bool false xorb (fun k P => if N.odd k then P else false) true 2
+               negb (fun P => [if P then 3 else 2]) (fun P => [4; if P then 1 else 0]).
+
+Lemma Z2_laws : group_laws Z2_group.
+Proof.
+  constructor; cbn.
+  - intros [] []; reflexivity.
+  - intros [] [] []; reflexivity.
+  - intros []; reflexivity.
+  - intros P. exists P. destruct P; reflexivity.
+  - reflexivity.
+  - reflexivity.
+  - intros a b P. rewrite N.odd_add. destruct (N.odd a), (N.odd b), P; reflexivity.
+  - intros a b P. rewrite N.odd_mul. destruct (N.odd a), (N.odd b), P; reflexivity.
+  - reflexivity.
+  - reflexivity.
+  - intros []; cbn; split; congruence.
+Qed.
+
+Lemma Z2_order_exact : order_exact Z2_group.
+Proof.
+  intros a. cbn. destruct (N.odd a) eqn:E; [discriminate|]. intros _.
+  rewrite <- N.negb_even in E. apply Bool.negb_false_iff, N.even_spec in E.
+  destruct E as [m ->]. rewrite N.mul_comm. apply N.mod_mul. discriminate.
+Qed.
